@@ -25,10 +25,10 @@ RULE = ("cases drawn from one PRNG (VERIF_SEED). view: a random tree (depth <= 3
         "class toggles, style strings and style properties, rendered by RenderHtml::to_html(); document: <Title>, "
         "<Meta name content>, <Link href>, <Html attr:lang>, <Body attr:class> of leptos_meta plus a body view, "
         "rendered under a real ServerMetaContext and passed through the real inject_meta_context over a fixed shell; "
-        "static: twelve fixed view! invocations whose hostile strings are literals (top-level builder path and nested, "
+        "static: thirteen fixed view! invocations whose hostile strings are literals (top-level builder path and nested, "
         "macro-inlined inert path); "
-        "template: thirteen view! templates (text child, attribute, class, style, href, input value, Option child, "
-        "list item, textarea, class: toggle, custom element, title, closure child) with the generated string in the "
+        "template: fourteen view! templates (text child, attribute, class, style, href, input value, Option child, "
+        "list item, textarea, class: toggle, custom element, title, closure child, scope class `class = expr,`) with the generated string in the "
         "dynamic slot. Strings come from an adversarial alphabet (< > & \" ' / = ` NUL, <!--, -->, ]]>, </script, "
         "</title, </textarea, </style, <script, character-reference look-alikes such as &lt; &amp; &#60; &notit;, "
         "CR/LF, Unicode whitespace, astral characters) plus random scalar values. Non-trivial = some string of the "
@@ -163,6 +163,46 @@ def gen_top(rng):
     return v
 
 
+def add_suspends(rng, v, counter, text_only=False):
+    """wrap random children (any kind; inside text-only elements: the text-like ones) in Suspend"""
+    if v[0] != 2:
+        return v
+    kids = []
+    t_only = v[1] in RCDATA or v[1] in RAW
+    for k in v[3]:
+        k = add_suspends(rng, k, counter)
+        if counter[0] < 6 and rng.random() < (0.5 if t_only else 0.3) and not (v[1] == 7):
+            k = [5, counter[0], k]
+            counter[0] += 1
+        kids.append(k)
+    return [2, v[1], v[2], kids]
+
+
+def gen_stream(rng):
+    counter = [0]
+    v = add_suspends(rng, gen_top(rng), counter)
+    if counter[0] == 0:
+        v = [2, 0, [], [[0, b(text(rng))], [5, 0, v], [0, b(text(rng))]]]
+        counter[0] = 1
+    n = counter[0]
+    mode = rng.randint(0, 1)
+    if mode == 1 and suspend_in_raw(v):
+        # an out-of-order placeholder inside script / style / textarea is a comment that is not a
+        # comment there, whatever the data (C07's domain): asynchronous children of text-only
+        # elements are streamed in order only
+        mode = 0
+    sched = []
+    order = list(range(n))
+    rng.shuffle(order)
+    for k in order[:rng.randint(0, n)]:
+        if rng.random() < 0.5:
+            sched.append(-1)
+        sched.append(k)
+    if rng.random() < 0.3:
+        sched = [k for k in sched if k >= 0]      # everything (in sched) ready before the first poll
+    return [5, mode, v, sched]
+
+
 def gen_document(rng):
     title = [b(text(rng, 8))] if rng.random() < 0.8 else []
     metas = [[b(rng.choice(["description", "keywords", "author", text(rng, 3)])), b(text(rng, 8))]
@@ -174,8 +214,8 @@ def gen_document(rng):
     return [3, title, metas, link, lang, cls, body]
 
 
-N_STATIC = 12
-N_TEMPLATES = 13
+N_STATIC = 13
+N_TEMPLATES = 14
 
 
 def generate(rng, tier):
@@ -184,10 +224,12 @@ def generate(rng, tier):
         yield dict(case=[2, k], kind="static", compare=False)
     for i in range(n):
         r = rng.random()
-        if r < 0.62:
+        if r < 0.55:
             yield dict(case=[1, gen_top(rng)], kind="view", compare=True)
-        elif r < 0.80:
+        elif r < 0.72:
             yield dict(case=gen_document(rng), kind="document", compare=True)
+        elif r < 0.84:
+            yield dict(case=gen_stream(rng), kind="stream", compare=False)
         else:
             yield dict(case=[4, rng.randrange(N_TEMPLATES), b(text(rng, 8))], kind="template", compare=False)
 
@@ -232,6 +274,12 @@ def raw_content(kids):
     """what the children of a text-only element (textarea, title, script, style) say, in order"""
     out = []
     for k in kids:
+        if k[0] == 5:
+            r = raw_content([k[2]])
+            if r is None:
+                return None
+            out.append(r)
+            continue
         if k[0] == 2:
             return None
         out.append(leaf_text(k))
@@ -270,7 +318,9 @@ def exp_nodes(kids):
     """expected children of an ordinary element, comments left out"""
     out = []
     for k in kids:
-        if k[0] == 2:
+        if k[0] == 5:
+            out += exp_nodes([k[2]])       # a Suspend renders what it resolves to
+        elif k[0] == 2:
             out.append(exp_el(k))
         elif k[0] == 4:
             continue
@@ -324,6 +374,19 @@ def canon(nodes):
     return out
 
 
+def merge_texts(nodes):
+    """adjacent text nodes as one (the separators between text siblings belong to C05/C07)"""
+    out = []
+    for n in nodes:
+        if n[0] == "el":
+            n = ("el", n[1], n[2], merge_texts(n[3]))
+        if n[0] == "text" and out and out[-1][0] == "text":
+            out[-1] = ("text", out[-1][1] + n[1])
+        else:
+            out.append(n)
+    return out
+
+
 def drop_dropped_texts(nodes):
     """expected text nodes that consist of NULs only vanish in the browser; the comment that
     separated them stays, so the neighbours do not merge \u2014 nothing else to do"""
@@ -351,6 +414,9 @@ STATIC_EXPECT = [
                         ("el", "input", [("value", "'\"><svg onload=alert(1)>")], [])])],
     [("el", "ul", [], [("el", "li", [], [("el", "a", [("href", "javascript:alert('x')\"<>")], [("text", "<a href=x>")])]),
                        ("el", "li", [("id", "</li></ul><p>")], [("text", "</li></ul>")])])],
+    [("el", "div", [("class", 'g" onclick="alert(1)')],
+      [("el", "p", [("class", 'g" onclick="alert(1)')], [("text", "static child")]),
+       ("el", "span", [("class", 'g" onclick="alert(1) own')], [("text", "x")]), ("text", "1")])],
 ]
 
 
@@ -386,7 +452,13 @@ def template_expect(k, s):
     if k == 11:
         t = norm_attr(s) if s else " "
         return [("el", "title", [], [T(t)])]
-    return [("el", "p", [], [T(tb)])]
+    if k == 12:
+        return [("el", "p", [], [T(tb)])]
+    # k == 13: scope class; the top-level element goes through the builder (trimmed), the nested
+    # ones are inlined by the macro (scope class, then the element's own class)
+    return [("el", "div", [("class", norm_attr(rust_trim(" " + s)))],
+             [("el", "p", [("class", ta)], [T("static child")]),
+              ("el", "span", [("class", norm_attr(s + " own"))], [T("x")]), T("1")])]
 
 
 def document_expect(case):
@@ -411,6 +483,8 @@ def rawtext_breakouts(v):
     """script/style elements of the view whose text children contain something that ends or
     derails the raw-text context"""
     out = []
+    if v[0] == 5:
+        return rawtext_breakouts(v[2])
     if v[0] != 2:
         return out
     if v[1] in RAW:
@@ -428,6 +502,8 @@ def views_of(case):
         return [case[1]]
     if case[0] == 3:
         return [case[6]]
+    if case[0] == 5:
+        return [case[2]]
     return []
 
 
@@ -479,6 +555,15 @@ def oracle(item, impl):
         d = first_diff(want, got, "document")
         return ("parsed document differs from the view: " + d) if d else None
     nodes, notes = H.parse_fragment(html)
+    if op == 5:
+        if case[1] == 1:
+            nodes, probs = H.apply_leptos_ooo(nodes)
+            if probs:
+                return "out-of-order stream: " + probs[0]
+        got = merge_texts(canon(strip_comments(nodes)))
+        want = merge_texts(canon(exp_nodes([case[2]])))
+        d = first_diff(want, got)
+        return ("parsed stream differs from the view: " + d) if d else None
     got = canon(strip_comments(nodes))
     if op == 1:
         want = canon(exp_nodes([case[1]]))
@@ -525,16 +610,22 @@ def valid_case(item):
                     return False
                 bytes(m[0]).decode("utf-8")
                 bytes(m[1]).decode("utf-8")
-            return valid_view(case[6])
+            return valid_view(case[6]) and not has_suspend(case[6])
         if op == 1:
-            return len(case) == 2 and valid_view(case[1])
+            return len(case) == 2 and valid_view(case[1]) and not has_suspend(case[1])
+        if op == 5:
+            return (len(case) == 4 and case[1] in (0, 1) and valid_view(case[2])
+                    and not (case[1] == 1 and suspend_in_raw(case[2]))
+                    and all(isinstance(k, int) and -1 <= k < 16 for k in case[3]))
         return False
     except Exception:
         return False
 
 
-def valid_view(v):
+def valid_view(v, in_text_only=False):
     k = v[0]
+    if k == 5:
+        return len(v) == 3 and isinstance(v[1], int) and 0 <= v[1] < 16 and valid_view(v[2])
     if k == 0:
         bytes(v[1]).decode("utf-8")
         return len(v) == 2
@@ -577,7 +668,7 @@ def valid_view(v):
     if v[1] == 7 and len(v[3]) > 1:
         return False
     if v[1] in RCDATA or v[1] in RAW:
-        if any(k[0] in (2, 4) for k in v[3]):
+        if any(k[0] in (2, 4) or (k[0] == 5 and k[2][0] in (2, 4, 5)) for k in v[3]):
             return False
         if v[1] == 6 and (raw_content(v[3]) or "")[:1] in ("\n", "\r"):
             return False
@@ -602,7 +693,25 @@ def _flat(v):
     return out
 
 
+def suspend_in_raw(v):
+    if v[0] == 5:
+        return suspend_in_raw(v[2])
+    if v[0] != 2:
+        return False
+    if (v[1] in RAW or v[1] in RCDATA) and any(k[0] == 5 for k in v[3]):
+        return True
+    return any(suspend_in_raw(k) for k in v[3])
+
+
+def has_suspend(v):
+    if v[0] == 5:
+        return True
+    return v[0] == 2 and any(has_suspend(k) for k in v[3])
+
+
 def show_view(v):
+    if v[0] == 5:
+        return "Suspend#%d(%s)" % (v[1], show_view(v[2]))
     if v[0] == 0:
         return repr(s_of(v[1]))
     if v[0] == 1:
@@ -639,6 +748,8 @@ def describe(it):
             return "static view! #%d" % case[1]
         if case[0] == 4:
             return "view! template #%d with %r" % (case[1], s_of(case[2]))
+        if case[0] == 5:
+            return "%s stream, schedule %r, of %s" % ("out-of-order" if case[1] else "in-order", case[3], show_view(case[2]))
         if case[0] == 3:
             return "document title=%r metas=%r link=%r lang=%r body-class=%r body=%s" % (
                 [s_of(x) for x in case[1]], [(s_of(n), s_of(c)) for n, c in case[2]], [s_of(x) for x in case[3]],
